@@ -70,9 +70,10 @@ def make_stack(kind, default_noreply=True, key_prefix=b"", **kw):
         cl = HashClient([("mc1", 11211)], use_pooling=(kind == "hashpooled"), **opts)
     elif kind == "hash3":
         # three healthy servers behind one HashClient are one cache: every key lives on the server placement gives it
-        for nm in ("mc2", "mc3"):
-            net.add_server((nm, 11211))._next_cas = srv._next_cas      # one numbering of cas ids, as in one cache
-        cl = HashClient([("mc1", 11211), ("mc2", 11211), ("mc3", 11211)], **opts)
+        # (one of the three is reached through a UNIX socket: a cluster may mix both kinds of address)
+        for addr in ("/var/run/mc2.sock", ("mc3", 11211)):
+            net.add_server(addr)._next_cas = srv._next_cas      # one numbering of cas ids, as in one cache
+        cl = HashClient([("mc1", 11211), "/var/run/mc2.sock", ("mc3", 11211)], **opts)
     elif kind == "retrying":
         cl = RetryingClient(Client(("mc1", 11211), **opts), attempts=1)
     else:
@@ -97,11 +98,20 @@ def do_op(cl, ev, default_noreply, variant, kind="client"):
     key = k if as_str else k.encode()
     keymap = {key: k}
     try:
-        if op in ("set", "add", "replace", "append", "prepend"):
+        items_ok = kind in ("client", "pooled", "retrying")       # the stacks that offer c[k], c[k] = v, del c[k]
+        if op == "set" and items_ok and nr and exp == 0 and variant % 5 == 2:
+            cl[key] = v                      # documented as set(key, value, noreply=True)
+            r = True
+        elif op in ("set", "add", "replace", "append", "prepend"):
             r = getattr(cl, op)(key, v, expire=exp, **kw)
         elif op == "cas":
             tok = str(ev["cas"]).encode() if variant % 2 else ev["cas"]
             r = cl.cas(key, v, tok, expire=exp, **kw)
+        elif op == "get" and items_ok and variant % 5 == 0:
+            try:
+                r = cl[key]                  # the value, or KeyError for a miss -- whatever the value is (empty, b"0", ...)
+            except KeyError:
+                r = DFLT
         elif op == "get":
             r = cl.get(key, DFLT) if variant % 2 else cl.get(key, default=DFLT)
         elif op == "gets":
@@ -115,6 +125,9 @@ def do_op(cl, ev, default_noreply, variant, kind="client"):
             keymap = dict(zip(keys, ev["keys"]))
             coll = [list, tuple, iter][variant % 3](keys) if kind in ("client", "pooled", "retrying") else keys
             r = getattr(cl, op)(coll)
+        elif op == "delete" and items_ok and nr and variant % 5 == 1:
+            del cl[key]                      # documented as delete(key, noreply=True)
+            r = True
         elif op == "delete":
             r = cl.delete(key, **kw)
         elif op == "delete_many":
